@@ -60,7 +60,7 @@ CLAIMS = {
                 note="That NaN never reaches the cost functions / sorts is NOT decided (continuous numerics).",
                 technique="CFG dominance of float-division guards + constant agreement"),
     "C15": dict(level="other", design="§5 C15",
-                text="Thresholds passed by the public wrappers (13 points, 3 cm), push of a Cluster dominated by the size guard, who-may-construct Cluster, primary vertex built only behind the >1-track filter; SpacePoint::distance is the Euclidean distance (x = r cos phi, y = r sin phi); the flood fill of largest_cluster as two cursors with their updates and guards (role vocabulary); remainder bookkeeping and the one-cluster-per-track loop of beamline_clusters.",
+                text="Thresholds passed by the public wrappers (13 points, 3 cm), push of a Cluster dominated by the size guard, who-may-construct Cluster, primary vertex built only behind the >1-track filter; SpacePoint::distance is the Euclidean distance (x = r cos phi, y = r sin phi); the flood fill of largest_cluster as two cursors with their updates and guards (role vocabulary); the Hough accumulator's add / remove_unchecked bookkeeping (the point itself, the position of the equal element, bins of get_bins(point)); remainder bookkeeping and the one-cluster-per-track loop of beamline_clusters.",
                 note="Partition/conservation over all multisets is NOT decided (dynamic container reasoning).",
                 technique="who-may-construct census + dominance + constant-argument check + loop-carried cursor tables and value formulas compared with a spec"),
     "C16": dict(level="other", design="§5 C16",
